@@ -337,6 +337,9 @@ type VerifMock struct {
 	Events  int
 }
 
+// (PushClient has a parameter called `group`)
+var verifMuHeld = group.VerifMuHeld
+
 func VerifNewMock(id string) *VerifMock { return &VerifMock{id: id} }
 
 func (m *VerifMock) SetGroup(g *group.Group)        { m.g = g }
@@ -361,7 +364,13 @@ func (m *VerifMock) RequestConns(target group.Client, g *group.Group, id string)
 func (m *VerifMock) PushClient(group, kind, id, username string, perms []string, data map[string]interface{}) error {
 	m.mu.Lock()
 	m.Events++
-	if !m.block || kind != "change" {
+	// A blocking mock parks the announcements that come from detached goroutines.  Changes always do
+	// (finding P17).  A join is announced by group.AddClient while it holds the group's mutex, which is
+	// what orders it with respect to other joins and leaves: those calls are never parked.  An `add`
+	// that arrives with the mutex free has been moved out of the critical section, and parking it lets
+	// the harness run another member's join or leave in between.  (A `delete` is announced by
+	// DelClient after it has released the mutex, but from the leaving client's own thread: never parked.)
+	if !m.block || kind == "delete" || (kind != "change" && (m.g == nil || verifMuHeld(m.g))) {
 		m.mu.Unlock()
 		return nil
 	}
